@@ -69,6 +69,8 @@ def run_path(fn, params, prefix, step_budget, solver_timeout_ms, profile=False):
     core.CTX = ctx
     COVER = set()
     status, msg = "ok", ""
+    if core.MODE != "concrete":
+        loader.restore_globals()
     if profile:
         _REPO_FUNCS = set()
         sys.setprofile(_profile)
